@@ -8,7 +8,6 @@ import (
 
 	"github.com/ChrisTrenkamp/xsel/node"
 	"github.com/ChrisTrenkamp/xsel/store"
-	"golang.org/x/text/language"
 )
 
 type Function func(context Context, args ...Result) (Result, error)
@@ -182,7 +181,18 @@ func getName(nodeSet NodeSet, ok bool, nameType nameType) (Result, error) {
 		return String(""), nil
 	}
 
-	firstNode := nodeSet[0]
+	firstNode := firstInDocumentOrder(nodeSet)
+
+	switch n := firstNode.Node().(type) {
+	case node.ProcInst:
+		if nameType != namespaceOnly {
+			return String(n.Target()), nil
+		}
+	case node.Namespace:
+		if nameType != namespaceOnly {
+			return String(n.Prefix()), nil
+		}
+	}
 
 	if n, ok := firstNode.Node().(node.NamedNode); ok {
 		if nameType == localOnly || (nameType == localAndNamespace && n.Space() == "") {
@@ -416,46 +426,52 @@ func lang(context Context, args ...Result) (Result, error) {
 		return nil, errQueryNonNodeset
 	}
 
+	if len(nodeSet) == 0 {
+		return Bool(false), nil
+	}
+
 	lStr := args[0].String()
 
-	var n store.Cursor
-
-	for _, i := range nodeSet {
-		if _, ok := i.Node().(node.Element); ok {
-			n = i
-		} else {
-			n = i.Parent()
-		}
-
-		for n.Pos() != 0 {
-			if attr, ok := store.GetAttribute(n, "http://www.w3.org/XML/1998/namespace", "lang"); ok {
-				return checkLang(lStr, attr.AttributeValue()), nil
-			}
-
-			n = n.Parent()
+	// The language is that of the nearest xml:lang attribute on the context
+	// node or its ancestors.
+	for n := firstInDocumentOrder(nodeSet); n.Pos() != 0; n = n.Parent() {
+		if attr, ok := store.GetAttribute(n, "http://www.w3.org/XML/1998/namespace", "lang"); ok {
+			return checkLang(lStr, attr.AttributeValue()), nil
 		}
 	}
 
 	return Bool(false), nil
 }
 
+// checkLang reports whether the language targStr is the same as, or a
+// sublanguage of, srcStr, ignoring case.
 func checkLang(srcStr, targStr string) Bool {
-	srcLang := language.Make(srcStr)
-	srcRegion, srcRegionConf := srcLang.Region()
+	src := asciiLower(srcStr)
+	targ := asciiLower(targStr)
 
-	targLang := language.Make(targStr)
-	targRegion, targRegionConf := targLang.Region()
+	return Bool(targ == src || strings.HasPrefix(targ, src+"-"))
+}
 
-	if srcRegionConf == language.Exact && targRegionConf != language.Exact {
-		return Bool(false)
+func asciiLower(str string) string {
+	return strings.Map(func(r rune) rune {
+		if r >= 'A' && r <= 'Z' {
+			return r + ('a' - 'A')
+		}
+
+		return r
+	}, str)
+}
+
+func firstInDocumentOrder(nodeSet NodeSet) store.Cursor {
+	first := nodeSet[0]
+
+	for _, i := range nodeSet[1:] {
+		if i.Pos() < first.Pos() {
+			first = i
+		}
 	}
 
-	if srcRegion != targRegion && srcRegionConf == language.Exact && targRegionConf == language.Exact {
-		return Bool(false)
-	}
-
-	_, _, conf := language.NewMatcher([]language.Tag{srcLang}).Match(targLang)
-	return Bool(conf >= language.High)
+	return first
 }
 
 func number0(context Context, args ...Result) (Result, error) {
